@@ -145,7 +145,11 @@ func generate(p *Prog, prop string) *checkResult {
 	keys := p.contractedFuncsFor(prop)
 	for _, key := range keys {
 		fc := p.cs.Funcs[key]
-		fn := p.funcs[key]
+		fkey := key
+		if fc.Variant != "" {
+			fkey = strings.TrimSuffix(key, "@"+fc.Variant)
+		}
+		fn := p.funcs[fkey]
 		sk := p.shortKey(key)
 		if fn == nil {
 			cr.obls = append(cr.obls, &Obligation{Name: sk + "/TARGET", Class: "TARGET", Props: fc.Props, Expect: "unsat",
